@@ -62,17 +62,19 @@ var c14Concrete = map[string]string{"Expr": "Ident", "Stmt": "ExprStmt", "Decl":
 
 // c14Side is one of the two executions (dst or ast).
 type c14Side struct {
-	types    map[string]reflect.Type // concrete pointer types by name
-	ids      map[interface{}]int
-	created  int
-	log      []c14Event
-	step     int
-	seed     uint32
-	density  uint32
-	ops      map[string]int
-	nodeIfc  reflect.Type
-	violated string
-	preSeen  map[int]int
+	types        map[string]reflect.Type // concrete pointer types by name
+	ids          map[interface{}]int
+	created      int
+	log          []c14Event
+	step         int
+	seed         uint32
+	density      uint32
+	ops          map[string]int
+	nodeIfc      reflect.Type
+	violated     string
+	preSeen      map[int]int
+	rootReplaced bool
+	rootMode     bool // scripts that only replace the root and abort (no other edits, so no early panics)
 }
 
 func (s *c14Side) build(t reflect.Type) reflect.Value {
@@ -137,7 +139,41 @@ func (s *c14Side) on(phase string, node, parent interface{}, name string, index 
 	pid := s.ids[parent]
 	typ := refl.TypeName(node)
 	s.log = append(s.log, c14Event{phase, id, pid, name, index, typ, name == "Node" || c14Invariant(node, parent, name, index) == ""})
-	if name == "Node" { // the root wrapper: never edited
+	if name == "Node" {
+		// the root wrapper: it can be replaced (both implementations keep it in a one-field struct)
+		// and post may abort at it; the returned root is compared afterwards
+		if t, ok := s.types[typ]; ok && typ != "Package" {
+			if s.rootMode {
+				r := s.seed % 3
+				if (phase == "pre" && r != 1) || (phase == "post" && r != 0) {
+					s.ops["Replace-root"]++
+					s.ops["Replace-root-"+phase]++
+					s.rootReplaced = true
+					cur.replace(s.build(t))
+				}
+				if phase == "post" && s.seed%5 == 0 {
+					s.ops["post-false"]++
+					s.ops["post-false-after-root-replaced"]++
+					return false
+				}
+				return true
+			}
+			switch s.decide(phase, typ, name, index) {
+			case 2:
+				if phase == "post" {
+					s.ops["post-false"]++
+					if s.rootReplaced {
+						s.ops["post-false-after-root-replaced"]++
+					}
+					return false
+				}
+			case 3, 9:
+				s.ops["Replace-root"]++
+				s.ops["Replace-root-"+phase]++
+				s.rootReplaced = true
+				cur.replace(s.build(t))
+			}
+		}
 		return true
 	}
 	// static type of the containing slot
@@ -157,6 +193,9 @@ func (s *c14Side) on(phase string, node, parent interface{}, name string, index 
 	}
 	isFile := pv.Type().Name() == "Package"
 	act := s.decide(phase, typ, name, index)
+	if s.rootMode && act != 2 {
+		act = 0
+	}
 	do := func(op string, f func()) {
 		s.ops[op]++
 		f()
@@ -170,8 +209,11 @@ func (s *c14Side) on(phase string, node, parent interface{}, name string, index 
 			return false
 		}
 	case 2:
-		if phase == "post" && s.step%7 == 0 {
+		if phase == "post" && (s.step%7 == 0 || s.rootReplaced) {
 			s.ops["post-false"]++
+			if s.rootReplaced {
+				s.ops["post-false-after-root-replaced"]++
+			}
 			return false
 		}
 	case 3:
@@ -361,6 +403,31 @@ func runC14(c *fw.Ctx) {
 				c14Run(c, id, df, af, d, seed, densities[k%len(densities)], string(src))
 			})
 		}
+		// root scripts: the root itself (the file, or one of its declarations taken as the root of
+		// its own Apply call) is replaced in pre, post or both, and post aborts at the root or below
+		for k := 0; k < c.Pick(3, 12); k++ {
+			id := fmt.Sprintf("file:%s/rootscript%d", corpus.Rel(p), k)
+			c.Case(id, func() {
+				fset := token.NewFileSet()
+				af, err := parser.ParseFile(fset, filepath.Base(p), src, 0)
+				if err != nil {
+					return
+				}
+				d := decorator.NewDecorator(fset)
+				df, err := d.DecorateFile(af)
+				if err != nil {
+					return
+				}
+				seed := uint32(c.Seed)*6007 + uint32(k)*15485863 + uint32(i)
+				var dr dst.Node = df
+				var ar ast.Node = af
+				if k%2 == 1 && len(af.Decls) > 0 {
+					j := int(seed) % len(af.Decls)
+					dr, ar = df.Decls[j], af.Decls[j]
+				}
+				c14RunMode(c, id, dr, ar, d, seed, []uint32{0, 2, 8}[k%3], string(src), true)
+			})
+		}
 	}
 	// packages
 	dirs := map[string]bool{}
@@ -402,8 +469,12 @@ func runC14(c *fw.Ctx) {
 }
 
 func c14Run(c *fw.Ctx, id string, droot dst.Node, aroot ast.Node, d *decorator.Decorator, seed, density uint32, src string) {
-	ds := &c14Side{types: dstTypes, ids: map[interface{}]int{}, seed: seed, density: density, ops: map[string]int{}, preSeen: map[int]int{}}
-	as := &c14Side{types: astTypes, ids: map[interface{}]int{}, seed: seed, density: density, ops: map[string]int{}, preSeen: map[int]int{}}
+	c14RunMode(c, id, droot, aroot, d, seed, density, src, false)
+}
+
+func c14RunMode(c *fw.Ctx, id string, droot dst.Node, aroot ast.Node, d *decorator.Decorator, seed, density uint32, src string, rootMode bool) {
+	ds := &c14Side{types: dstTypes, ids: map[interface{}]int{}, seed: seed, density: density, ops: map[string]int{}, preSeen: map[int]int{}, rootMode: rootMode}
+	as := &c14Side{types: astTypes, ids: map[interface{}]int{}, seed: seed, density: density, ops: map[string]int{}, preSeen: map[int]int{}, rootMode: rootMode}
 	n := 0
 	ast.Inspect(aroot, func(x ast.Node) bool {
 		if x == nil {
